@@ -602,6 +602,45 @@ func genIncludeCase(t *rapid.T) zoneCase {
 }
 
 // ---------------------------------------------------------------------------------------------
+// $GENERATE at the limit of 65 536 steps: step widths > 1 with the stop beyond the last generated
+// value, on both sides of the limit (the full matrix of remainders is in C07's gate-table, which
+// counts records; here the records are compared)
+
+type limitCase struct {
+	Start, Step, Rem, N int64
+}
+
+func eachLimit(emit func(limitCase)) {
+	emit(limitCase{Start: 0, Step: 2, Rem: 1, N: 65536})
+	emit(limitCase{Start: 7, Step: 7, Rem: 3, N: 65536})
+	emit(limitCase{Start: 1, Step: 3, Rem: 2, N: 65535})
+	emit(limitCase{Start: 0, Step: 1, Rem: 0, N: 65537})
+	emit(limitCase{Start: 0, Step: 2, Rem: 0, N: 65537})
+	emit(limitCase{Start: 5, Step: 2, Rem: 1, N: 65537})
+}
+
+func checkLimit(c limitCase) error {
+	if c.Step < 1 || c.Rem < 0 || c.Rem >= c.Step || c.N < 1 || c.N > 70000 || c.Start < 0 || c.Start > 1000 {
+		pbt.Note(nil, false, "invalid-model")
+		return nil
+	}
+	z := &zm.Zone{FileName: "limit.db", HasOrigin: true, Origin: [][]byte{[]byte("example")}, HasDefTTL: true, DefTTL: 60}
+	z.Items = []zm.Item{
+		{Kind: zm.KGenerate, Gen: &zm.Generate{Start: c.Start, Stop: c.Start + (c.N-1)*c.Step + c.Rem, Step: c.Step, Type: zm.TCNAME,
+			LHS: zm.Template{{Kind: zm.TLit, Lit: "g"}, {Kind: zm.TIter}},
+			RHS: zm.Template{{Kind: zm.TLit, Lit: "t"}, {Kind: zm.TIterMod, NFields: 3, Width: 6, Base: "x"}}}},
+		{Kind: zm.KRec, Owner: zm.MName{Kind: zm.Rel, Labels: [][]byte{[]byte("after")}}, HasTTL: true, TTL: 5, RD: zm.RData{Type: zm.TA, IP: []byte{192, 0, 2, 9}}},
+	}
+	den, err := zm.Denote(z)
+	if err != nil {
+		return pbt.Errf("harness: %v", err)
+	}
+	pbt.Note([]byte(fmt.Sprint(c)), true, fmt.Sprintf("limit:steps=%d", c.N), fmt.Sprintf("limit:step=%d/rem=%d", c.Step, c.Rem))
+	zc := zoneCase{Zone: *z, OriginText: "example.", Renderings: []rendering{{Files: map[string]string{"limit.db": plainText(z, den)}}}}
+	return evalZone(&zc, den)
+}
+
+// ---------------------------------------------------------------------------------------------
 // NewRR / ReadRR: the first record of a text under the documented defaults (origin ".", default
 // TTL 3600, class IN)
 
@@ -774,6 +813,7 @@ func init() {
 	pbt.Register(pbt.Sub[zoneCase]{Name: "includes", Weight: 8, Gen: genIncludeCase, Check: checkZone})
 	pbt.Register(pbt.Sub[newRRCase]{Name: "newrr", Weight: 5, Gen: genNewRR, Check: checkNewRR})
 	pbt.Register(pbt.Sub[followCase]{Name: "type-followed", Weight: 2, Gen: genFollow, Check: checkFollow})
+	pbt.RegisterEnum(pbt.Enum[limitCase]{Name: "generate-limit", Exhaustive: true, Each: eachLimit, Check: checkLimit})
 	pbt.RegisterEnum(pbt.Enum[followCase]{Name: "every-type-followed", Exhaustive: true, Each: eachFollow, Check: checkFollow})
 
 	// finding #13: an IPSECKEY record followed by any line fails the whole parse
